@@ -45,6 +45,7 @@ class Ctx:
         self.deadline = deadline
         self.inputs = {}  # name -> z3 const (registered per path)
         self.bounds = {}  # name -> declared domain constraints
+        self.quotients = {}  # quotient symbol -> (numerator, denominator)
         self.light = []  # path condition without cut facts (bounds, assumptions, decisions): used to sample path models
         self.stats = dict(
             paths=0, aborted=0, forks=0, forced=0, solver_calls=0, solver_s=0.0,
@@ -441,7 +442,7 @@ class SNum(Sym):
         a = self.t if not self.is_int else z3.ToReal(self.t)
         b = _zt(o)
         b = b if b.sort() == z3.RealSort() else z3.ToReal(b)
-        return mk(a / b)
+        return _divide(a, b)
 
     def __rtruediv__(self, o):
         if not _supported(o):
@@ -449,7 +450,7 @@ class SNum(Sym):
         b = self.t if not self.is_int else z3.ToReal(self.t)
         a = _zt(o)
         a = a if a.sort() == z3.RealSort() else z3.ToReal(a)
-        return mk(a / b)
+        return _divide(a, b)
 
     def __floordiv__(self, o):
         if not _supported(o):
@@ -585,6 +586,29 @@ class SNum(Sym):
     @property
     def imag(self):
         return 0
+
+
+def _divide(a, b):
+    """a / b.  A constant divisor stays a z3 division (linear); a symbolic divisor becomes a fresh quotient
+    symbol q with the defining fact  b != 0 -> q * b == a  (z3's own division by a term is not dependable).
+    The definition is remembered so that harnesses can state obligations on numerator and denominator."""
+    b = z3.simplify(b)
+    if z3.is_rational_value(b) or z3.is_int_value(b):
+        return mk(a / b)
+    c = ctx()
+    q = z3.FreshReal('quot')
+    fact = z3.Implies(b != 0, q * b == a)
+    c.solver.add(fact)
+    c.bounds[q.decl().name()] = [fact]
+    c.quotients[q.decl().name()] = (mk(a), mk(b))
+    return SNum(q)
+
+
+def quotient_parts(x):
+    """(numerator, denominator) if x is a quotient symbol introduced by a symbolic division, else None."""
+    if isinstance(x, SNum) and z3.is_const(x.t):
+        return ctx().quotients.get(x.t.decl().name())
+    return None
 
 
 def concretize(t, lo=None, hi=None):
@@ -910,13 +934,42 @@ def prove_isolated(label, phi, given=(), known=None, detail=None, timeout_ms=200
     c.stats['solver_calls'] += 1
     c.stats['solver_s'] += dt
     c.stats['max_query_s'] = max(c.stats['max_query_s'], dt)
-    if r == z3.unsat:
+    def _done():
         c.stats['unsat'] += 1
         c.stats['obligations'] += 1
         c.stats['discharged'] += 1
         c.labels[label] = c.labels.get(label, 0) + 1
         c.stats['isolated'] = c.stats.get('isolated', 0) + 1
         return True
+    if r == z3.unsat:
+        return _done()
+    if known is None:
+        # second attempt: the path condition proper (domains, assumptions, decisions) without the accumulated cut facts
+        s2 = z3.Solver()
+        s2.set('timeout', timeout_ms)
+        for n, bs in c.bounds.items():
+            if '!' not in n or n in names:
+                s2.add(*bs)
+        s2.add(*c.light)
+        s2.add(*gs)
+        s2.add(z3.Not(p))
+        t = time.time()
+        r2 = s2.check()
+        dt = time.time() - t
+        c.stats['solver_calls'] += 1
+        c.stats['solver_s'] += dt
+        c.stats['max_query_s'] = max(c.stats['max_query_s'], dt)
+        if r2 == z3.unsat:
+            return _done()
+        if r2 == z3.sat:
+            c.stats['sat'] += 1
+            c.stats['obligations'] += 1
+            m = s2.model()
+            d = dict(label=label, inputs=model_inputs(m))
+            if detail is not None:
+                d['detail'] = jsonable(evalm(m, detail))
+            c.cex.append(d)
+            raise StopExploration()
     return prove(label, phi, known=known, detail=detail)
 
 
